@@ -65,8 +65,10 @@ CONSTANTS
  Vals <- ValsDef
  Dev = %s
  SS = 1
+ DoPrint = %s
  Sems = %s
  IOs = %s
+INVARIANT EmitBeh
 INVARIANT NoErr
 INVARIANT Mono
 INVARIANT Agree
@@ -75,21 +77,39 @@ CHECK_DEADLOCK FALSE
 
 
 def run_formulas(name, formulas, maxt=3, maxn=3, vals=(-2, 3), dev=(), workers=8, timeout=7200, expect_violation=False,
-                 sems=("standard",), ios=("output",)):
+                 sems=("standard",), ios=("output",), simulate=None, seed=0):
+    """simulate=N: TLC -simulate instead of exhaustive search; returns (result, behaviours printed by EmitBeh)"""
     """exhaustive TLC run of DenseOnFMC: formulas x signals x all per-variable schedules"""
     wd = tlc.workdir(name)
     mod = "MC_" + name
     with open(os.path.join(wd, mod + ".tla"), "w") as f:
         f.write("---- MODULE %s ----\nEXTENDS DenseOnFMC\nFormulasDef == %s\nValsDef == %s\n====\n" % (mod, tlc.tla_set(formulas), tlc.tla(set(vals))))
     with open(os.path.join(wd, mod + ".cfg"), "w") as f:
-        f.write(FCFG % (maxt, maxn, tlc.tla(set(dev)), tlc.tla(set(sems)), tlc.tla(set(ios))))
-    res = tlc.run(wd, mod, workers=workers, timeout=timeout, deadlock=True)
+        f.write(FCFG % (maxt, maxn, tlc.tla(set(dev)), "TRUE" if simulate else "FALSE", tlc.tla(set(sems)), tlc.tla(set(ios))))
+    if simulate:
+        res = tlc.run(wd, mod, workers=workers, timeout=timeout, deadlock=True, simulate="num=%d" % simulate, depth=2 * maxn + 2, seed=seed + 1)
+    else:
+        res = tlc.run(wd, mod, workers=workers, timeout=timeout, deadlock=True)
     tlc.ok_or_machinery(res, name)
     if expect_violation and not res["violated"]:
         raise core.Machinery("%s: deviation-on configuration produced no counter-example (vacuous invariants?)" % name)
+    behs = []
+    if simulate and not res["violated"]:
+        for line in res["out"].splitlines():
+            line = line.strip()
+            if line.startswith('"BEHAVIOUR '):
+                try:
+                    line = json.loads(line)
+                except ValueError:
+                    continue
+            if line.startswith("BEHAVIOUR "):
+                try:
+                    behs.append(json.loads(line[len("BEHAVIOUR "):]))
+                except ValueError:
+                    pass
     if not os.environ.get("VERIF_KEEP"):
         shutil.rmtree(wd, ignore_errors=True)
-    return res
+    return (res, behs) if simulate else res
 
 
 OCFG = """SPECIFICATION Spec
